@@ -14,7 +14,7 @@ use crate::tape::{prf_bytes, prf_cells, Tape};
 
 pub static PROP: PropDef = PropDef {
     id: "C07",
-    rule: "case = role x 2..4 concurrent requests, any subset faulty with exactly one of {RESET(any code) at any byte offset, STOP_SENDING(code) on the other direction at any moment, validly encoded but malformed message, \
+    rule: "case = role x 2..4 concurrent requests, any subset faulty with exactly one of {RESET(any code) at any byte offset, STOP_SENDING(code) on the other direction at any moment, validly encoded but malformed message, a well-formed message with a bad trailer section (uppercase name / unknown pseudo-header / request or response pseudo-header / over the limit), \
            section over the limit, FIN before HEADERS, stream opened and abandoned} (the last two only towards a server), the rest healthy with generated bodies; operations of all streams merged in tape order; the h3 end's streams start with unlimited / zero / small send credit (grants are scheduler moves), so that faults also arrive while a write is blocked; a raw server acts on a request stream as soon as the client opened it; schedule from the tape. \
            oracle: healthy requests: the application sees exactly its own body bytes and end of message, and the bytes h3 wrote back on that stream parse (reference) to exactly HEADERS + DATA(own echo) and FIN; \
            faulty requests: the first error reported on that request, if any, is stream-level with the right code (RemoteTerminate{peer's code} / StreamError H3_MESSAGE_ERROR / HeaderTooBig / StreamError H3_REQUEST_INCOMPLETE) and a fault that must surface does (a STOP_SENDING because of which the transport refused one of h3's writes must have been reported by the end of the run); \
@@ -25,7 +25,7 @@ pub static PROP: PropDef = PropDef {
     run_tape,
     exhaustive: Some(exhaustive),
     run_direct: Some(run_direct),
-    min_classes: &[("nontrivial", 5000), ("fault_reset", 3000), ("fault_stop", 3000), ("stop_hit_a_write", 1000), ("fault_malformed", 2000), ("fault_oversized", 2000), ("fault_fin_before_headers", 1000), ("fault_abandoned", 1000), ("role_client", 5000), ("role_server", 5000), ("healthy_verified", 20000)],
+    min_classes: &[("nontrivial", 5000), ("fault_reset", 3000), ("fault_stop", 3000), ("stop_hit_a_write", 1000), ("fault_malformed", 2000), ("fault_oversized", 2000), ("fault_bad_trailers", 2000), ("fault_fin_before_headers", 1000), ("fault_abandoned", 1000), ("role_client", 5000), ("role_server", 5000), ("healthy_verified", 20000)],
     extra: None,
 };
 
@@ -38,6 +38,9 @@ pub enum Fault {
     Oversized,
     FinBeforeHeaders,
     Abandoned,
+    /// a well-formed message whose trailer section is the problem: 0 = uppercase field name, 1 = unknown pseudo-header
+    /// field, 2 = a request / response pseudo-header field, 3 = over the size limit
+    BadTrailers(u8),
 }
 
 #[derive(Debug, Clone, PartialEq, Eq, Hash)]
@@ -282,6 +285,15 @@ fn peer_message(server_role: bool, k: usize, r: &Req) -> Vec<u8> {
     for piece in body.chunks((body.len() / n).max(1)) {
         b.extend(peer::data_frame(piece));
     }
+    if let Fault::BadTrailers(v) = r.fault {
+        let f: Vec<rq::Field> = match v {
+            0 => vec![(b"Bad-Name".to_vec(), b"x".to_vec())],
+            1 => vec![(b"x-ok".to_vec(), b"1".to_vec()), (b":foo".to_vec(), b"bar".to_vec())],
+            2 => vec![(if server_role { b":path".to_vec() } else { b":status".to_vec() }, if server_role { b"/x".to_vec() } else { b"200".to_vec() }), (b"x-ok".to_vec(), b"1".to_vec())],
+            _ => vec![(b"x-big".to_vec(), vec![b't'; 500])],
+        };
+        b.extend(rf::frame(rf::T_HEADERS, &rq::encode_section_literal(&f, false)));
+    }
     b
 }
 
@@ -493,6 +505,22 @@ pub fn run_scn(s: &Scn, merge: &mut Tape, sched: &mut Tape, ctx: &mut Ctx) -> Ve
                 }
                 ctx.class("fault_abandoned");
             }
+            Fault::BadTrailers(v) => {
+                // whether each of these trailer sections is refused at all is C12's / C10's business; here: whatever is
+                // reported is reported on that request, at stream level, with the code of a malformed / oversized message
+                match (&ro.first_error, v) {
+                    (None, _) => ctx.class("bad_trailers_tolerated"),
+                    (Some((_, ErrInfo::Stream { code: c })), 0..=2) if *c == code::MESSAGE_ERROR => ctx.class("bad_trailers_refused"),
+                    (Some((_, ErrInfo::HeaderTooBig { .. })), 3) => ctx.class("bad_trailers_refused"),
+                    (other, _) => return fail(format!("request {k} carried a bad trailer section (kind {v}); first error: {other:?}")),
+                }
+                // the body before the trailers is that request's own
+                let want_in = body_of(k, r.body_len, !s.server);
+                if ro.body != want_in {
+                    return fail(format!("request {k}: {} body bytes delivered before the bad trailers, the peer sent {}", ro.body.len(), want_in.len()));
+                }
+                ctx.class("fault_bad_trailers");
+            }
         }
     }
     let faulty = s.reqs.iter().filter(|r| r.fault != Fault::None).count();
@@ -508,8 +536,10 @@ pub fn run_scn(s: &Scn, merge: &mut Tape, sched: &mut Tape, ctx: &mut Ctx) -> Ve
 
 fn gen_fault(t: &mut Tape, server: bool, msg_len_hint: usize) -> Fault {
     let codes = [0x10cu64, 0x100, 0, 0x101, 0x33, 0xdead_beef, (1 << 62) - 1];
-    match t.pick(if server { 7 } else { 5 }) {
+    match t.pick(if server { 8 } else { 6 }) {
         0 => Fault::None,
+        5 if !server => Fault::BadTrailers(t.pick(4) as u8),
+        7 => Fault::BadTrailers(t.pick(4) as u8),
         1 => Fault::Reset { code: *t.choose(&codes), offset: t.pick(msg_len_hint + 60) },
         2 => Fault::Stop { code: *t.choose(&codes), after_ops: t.pick(6) },
         3 => Fault::Malformed,
@@ -550,10 +580,10 @@ fn gen(t: &mut Tape) -> Scn {
 
 fn exhaustive(ctx: &mut Ctx, shard: usize, nshards: usize) -> Verdict {
     // every (fault kind x victim subset) for 2..3 requests, both roles
-    let faults_server = [Fault::Reset { code: 0x10c, offset: 0 }, Fault::Reset { code: 0x77, offset: 5 }, Fault::Reset { code: 0x10c, offset: 40 }, Fault::Reset { code: 0x10c, offset: 100_000 }, Fault::Stop { code: 0x10c, after_ops: 0 }, Fault::Stop { code: 0x99, after_ops: 2 }, Fault::Stop { code: 0x10c, after_ops: 9 }, Fault::Stop { code: 0x100, after_ops: 1 }, Fault::Reset { code: 0x100, offset: 30 }, Fault::Malformed, Fault::Oversized, Fault::FinBeforeHeaders, Fault::Abandoned];
+    let faults_server = [Fault::Reset { code: 0x10c, offset: 0 }, Fault::Reset { code: 0x77, offset: 5 }, Fault::Reset { code: 0x10c, offset: 40 }, Fault::Reset { code: 0x10c, offset: 100_000 }, Fault::Stop { code: 0x10c, after_ops: 0 }, Fault::Stop { code: 0x99, after_ops: 2 }, Fault::Stop { code: 0x10c, after_ops: 9 }, Fault::Stop { code: 0x100, after_ops: 1 }, Fault::Reset { code: 0x100, offset: 30 }, Fault::Malformed, Fault::Oversized, Fault::BadTrailers(0), Fault::BadTrailers(1), Fault::BadTrailers(2), Fault::BadTrailers(3), Fault::FinBeforeHeaders, Fault::Abandoned];
     let mut idx = 0usize;
     for server in [true, false] {
-        let faults: &[Fault] = if server { &faults_server } else { &faults_server[..11] };
+        let faults: &[Fault] = if server { &faults_server } else { &faults_server[..15] };
         for n in 2..=3usize {
             for subset in 1..(1u32 << n) {
                 for f in faults {
@@ -604,6 +634,7 @@ fn req_json(r: &Req) -> Value {
         Fault::Reset { code, offset } => ("Reset", code, offset as u64),
         Fault::Stop { code, after_ops } => ("Stop", code, after_ops as u64),
         Fault::Malformed => ("Malformed", 0, 0),
+        Fault::BadTrailers(v) => ("BadTrailers", v as u64, 0),
         Fault::Oversized => ("Oversized", 0, 0),
         Fault::FinBeforeHeaders => ("FinBeforeHeaders", 0, 0),
         Fault::Abandoned => ("Abandoned", 0, 0),
@@ -623,6 +654,7 @@ fn run_direct(d: &Value, ctx: &mut Ctx) -> Verdict {
                         Some("Reset") => Fault::Reset { code, offset: b },
                         Some("Stop") => Fault::Stop { code, after_ops: b },
                         Some("Malformed") => Fault::Malformed,
+                        Some("BadTrailers") => Fault::BadTrailers(code as u8),
                         Some("Oversized") => Fault::Oversized,
                         Some("FinBeforeHeaders") => Fault::FinBeforeHeaders,
                         Some("Abandoned") => Fault::Abandoned,
